@@ -19,7 +19,7 @@ from pyproj import CRS, Proj, Transformer  # noqa: E402
 from pyproj.enums import TransformDirection  # noqa: E402
 
 PROP_FILE = "Properties/C01.v"
-GEN = ["GenC01"]
+GEN = ["GenC01", "GenC01imp"]
 RUN_FILES = ["Model/C01_run.v", "Model/C01_F32.v"]
 
 U64 = 2.0 ** -53
@@ -516,6 +516,7 @@ class Eval:
         self.acc = self.meta.get("proj_acc", 1e-5)
         self.seen = set()
         self.coq32 = coq.setdefault("coords32", [])
+        self.coq_imp = coq.setdefault("history_imp", [])
 
     # -- bookkeeping
     def smp(self, kind_no, d):
@@ -917,6 +918,7 @@ class Eval:
                     tabT[(i, j)] = (xs[j], ys[i], float(tl[i, j]), float(ta[i, j]))
         for hist, steps in zip(spec["histories"], obs.get("histories", [])):
             ops_txt, obs_txt = [], []
+            imp_calls, imp_obs, imp_ok = [], [], True     # the same history through the GENERATED get_lonlats (numpy path only)
             good = True
             cached_before = False
             cache_set = False          # self.lons is set (tracked as the model does)
@@ -1032,11 +1034,24 @@ class Eval:
                             tabP[k_] = (xs[cols[0]], ys[rows[0]], float(pl_), float(pa_))
                     obs_txt.append("[" + "; ".join("[" + "; ".join("(%s, %s)" % (fhex(lo[i, j]), fhex(la[i, j])) for j in range(lo.shape[1])) + "]"
                                                    for i in range(lo.shape[0])) + "]")
+                    if acc == "get_lonlats" and op.get("chunks") is not None:
+                        imp_ok = False
+                    elif acc in ("get_lonlats", "get_lonlat"):
+                        sl_i = "None" if (acc == "get_lonlats" and op.get("slice") is None) else "(Some (%s, %s))" % (zlist(rows), zlist(cols))
+                        imp_calls.append("(%s, %s)" % (sl_i, "true" if op.get("cache") else "false"))
+
+                        def arr(m):
+                            return "[" + "; ".join("[" + "; ".join(fhex(m[i, j]) for j in range(m.shape[1])) + "]" for i in range(m.shape[0])) + "]"
+                        imp_obs.append("(%s, %s)" % (arr(lo), arr(la)))
             if exact and good and ops_txt:
                 def tab(t):
                     return "[" + "; ".join("((%s, %s), (%s, %s))" % tuple(fhex(v) for v in e) for e in t.values()) + "]"
                 self.coq["history"].append("(%s, %s, %s, [%s], ([%s] : list (list (list (float * float)))))" % (
                     A, tab(tabT), tab(tabP), "; ".join(ops_txt), "; ".join(obs_txt)))
+                if imp_ok and imp_calls:
+                    ctx.count("history_through_generated_get_lonlats")
+                    self.coq_imp.append("(%s, %s, ([%s] : list (option (list Z * list Z) * bool)), ([%s] : list (list (list float) * list (list float))))" % (
+                        A, tab(tabT), "; ".join(imp_calls), "; ".join(imp_obs)))
 
     @staticmethod
     def op_str(op):
@@ -1340,12 +1355,17 @@ GEN_CHK = ("Definition chk_gen_arr (c : area float * list (float * float * float
            "let '(psx, psy, ul, _, _) := gen_init a in "
            "list_eqb same_bits (map (fun k => fst (gen01_proj_vector_elements F64 (psx, psy) ul k 0)) (c01_range 0 (width a))) xs && "
            "list_eqb same_bits (map (fun k => snd (gen01_proj_vector_elements F64 (psx, psy) ul 0 k)) (c01_range 0 (height a))) ys.\n"
+           "Definition imp_self0 : areaobj (list (list float)) := mk_areaobj None None 1 tt tt.\n"
+           "Definition g_eqb (x y : list (list float)) : bool := list_eqb (list_eqb same_bits) x y.\n"
+           "Definition chk_imp_history (c : area float * table * list (option (list Z * list Z) * bool) * list (list (list float) * list (list float))) : bool := "
+           "let '(a, tT, calls, obs) := c in list_eqb (fun m o => match m with Some (lo, la) => g_eqb lo (fst o) && g_eqb la (snd o) | None => false end) "
+           "(imp_lonlats_history [] (c01_pc_inst F64 a) (c01_inv_inst (lookup tT)) (c01_slice_inst F64) imp_self0 calls) obs.\n"
            "Definition gen_axis_ok (v : float) (d d' : Z) (m m' : bool) : bool := Bool.eqb m m' && (f_isnan v || (d =? d')).\n"
            "Definition chk_gen_idx (c : area float * list (float * float * Z * bool * Z * bool)) : bool := let '(a, pts) := c in "
            "forallb (fun p => let '(x, y, cd, cm, rd, rm) := p in "
            "let '(cf, rf) := gen01_array_coordinates_from_projection_coordinates F64 a x y in "
            "let '(cd', rd', cm', rm') := gen01_masked_ints F64 a cf rf in gen_axis_ok cf cd' cd cm' cm && gen_axis_ok rf rd' rd rm' rm) pts.\n")
-GEN_EVALS = [("coords32", "chk_coords32"), ("arr_of_proj", "chk_gen_arr"), ("proj_of_arr", "chk_gen_proj"), ("attrs", "chk_gen_init"), ("vectors", "chk_gen_vec"),
+GEN_EVALS = [("history_imp", "chk_imp_history"), ("coords32", "chk_coords32"), ("arr_of_proj", "chk_gen_arr"), ("proj_of_arr", "chk_gen_proj"), ("attrs", "chk_gen_init"), ("vectors", "chk_gen_vec"),
              ("index_array", "chk_gen_idx")]
 CHK = {"attrs": "chk_attrs", "vectors": "chk_vectors", "coords_numpy": "chk_coords_numpy", "coords_dask": "chk_coords_dask",
        "arr_of_proj": "chk_arr_of_proj", "proj_of_arr": "chk_proj_of_arr", "index_array": "chk_index_array",
@@ -1413,7 +1433,7 @@ def correspond(ctx, per_area, shard=12):
         body = ""
         for kind, chk in GEN_EVALS:
             body += "Eval vm_compute in (bad %s [%s]).\n" % (chk, ";\n".join(l for c in part for l in c[kind]))
-        gen_files.append(("c01_gen_%03d" % (k // GS), HDR.replace("Model.C01_run.", "Model.C01_run Model.C01_F32 Gen.GenC01.") + GEN_CHK + body))
+        gen_files.append(("c01_gen_%03d" % (k // GS), HDR.replace("Model.C01_run.", "Model.C01_run Model.C01_F32 Gen.GenC01 Base.Imp Model.C01_ImpObj Gen.GenC01imp Proofs.C01_imp.") + GEN_CHK + body))
     res = ctx.coq_eval_many([(nm, t) for nm, t, _ in texts] + gen_files)
     for nm, _ in gen_files:
         out, ok = res[nm]
